@@ -328,7 +328,7 @@ fin_job!(job_threads, SubjectThreads<V, E>, finalize_threads, Form::Threads, Sub
 pub fn plan(tier: Tier) -> Plan {
   let len = match tier {
     Tier::Quick => 8,
-    Tier::Thorough => 11,
+    Tier::Thorough => 12,
   };
   let mut jobs = vec![];
   for shape in [
